@@ -47,12 +47,12 @@ theorem C10_equiv_walk (T : Tables) (cfg : Cfg) (f : Str → Option Str) (s : St
   exact (hflow.no_nsDoc s kvs _ h1 h2).elim
 
 /-- corollary: the two outputs have the same shape -/
-theorem C10_same_keys (T : Tables) (cfg : Cfg) (f : Str → Option Str) (hi : Bool) (k : Str) (kvs : List (Str × J))
+theorem C10_same_keys (T : Tables) (cfg : Cfg) (f : Str → Option Str) (hi hb : Bool) (k : Str) (kvs : List (Str × J))
     (hn : (J.obj kvs).nodup = true) :
-    ∃ k1 k2, Ctx.run ⟨T, { cfg with enc := none }, false⟩ (Ctx.zoneState hi k) (.obj kvs) = .obj k1 ∧
-             Ctx.run ⟨T, { cfg with enc := some f }, false⟩ (Ctx.zoneState hi k) (.obj kvs) = .obj k2 ∧
+    ∃ k1 k2, Ctx.run ⟨T, { cfg with enc := none }, false⟩ (Ctx.zoneState hi hb k) (.obj kvs) = .obj k1 ∧
+             Ctx.run ⟨T, { cfg with enc := some f }, false⟩ (Ctx.zoneState hi hb k) (.obj kvs) = .obj k2 ∧
              Ctx.Rel3KVs (EncLeaf f) kvs k1 k2 := by
-  have := C10_equiv_walk T cfg f (Ctx.zoneState hi k) (.obj kvs) hn
+  have := C10_equiv_walk T cfg f (Ctx.zoneState hi hb k) (.obj kvs) hn
   simpa [Ctx.Rel3] using this
 
 end Anonymongo
